@@ -75,8 +75,10 @@ def main():
     for zi, tz in enumerate(ZONES):
         jobs = []
         for theme in ("time-edge", "time-far"):
-            now = 0.25 if theme == "time-edge" else 0.0        # stamps are later than the theme's instants only for time-edge
             for i in range(n_rand // 2):
+                # stamps are later than the theme's instants only for time-edge; histories with stamps use static time
+                # updates only, the others also callables (whose results are rendered in other zones)
+                now = 0.25 if (theme == "time-edge" and i % 2 == 0) else 0.0
                 import themes
                 far_pool = [i for i, t in enumerate(themes.get("time-far").times) if t.year < 1901 or t.year > 1930]   # range start, 2038 / 2106 boundaries, the end of 2239 at microsecond steps
                 g = gen.Gen(rng.randrange(1 << 30), nt=24 if theme == "time-edge" else 70, now=now, handles=0.1,
